@@ -1221,6 +1221,13 @@ var vshSynMids = []string{"0", "1", "5", "7", "a", "audio0", "data"}
 // of vshSynMids; directions rotate sendrecv/recvonly/sendonly over the media sections.
 func vshSynOffers(n int, withUnknown bool) [][]vshSynSec {
 	medias := []string{"audio", "video", "application"}
+	mids := vshSynMids
+	if n <= 2 {
+		// short offers also with a section of a media type pion does not know (it is rejected in place and
+		// mirrored in every later description, so its mid stays taken) and with the mid "2"
+		medias = append(medias, "text")
+		mids = append(append([]string{}, vshSynMids...), "2")
+	}
 	var out [][]vshSynSec
 	var recMid func(pos int, cur []vshSynSec)
 	emit := func(cur []vshSynSec) {
@@ -1257,7 +1264,7 @@ func vshSynOffers(n int, withUnknown bool) [][]vshSynSec {
 					continue
 				}
 			}
-			for _, mid := range vshSynMids {
+			for _, mid := range mids {
 				used := false
 				for _, c := range cur {
 					if c.Mid == mid {
@@ -1268,7 +1275,7 @@ func vshSynOffers(n int, withUnknown bool) [][]vshSynSec {
 					continue
 				}
 				sec := vshSynSec{Media: m, Mid: mid}
-				if m != "application" {
+				if m != "application" && m != "text" {
 					sec.Dir = []string{"", "recvonly", "sendonly"}[pos%3]
 				}
 				recMid(pos+1, append(cur, sec))
